@@ -55,7 +55,7 @@ extern "C" void h_session() {
     uint32_t apiNumber = vp_u32("apiNumber"), appBuild = vp_u32("applicationBuild");
     uint16_t year = vp_u16("year"), ms = vp_u16("lastMs");
     long expectObjects = NOBJ;
-    uint64_t hdrUncompressed = 0, hdrFileSize = 0, hdrRestore = 0; uint32_t hdrCount = 0;
+    uint64_t hdrUncompressed = 0, hdrFileSize = 0, hdrRestore = 0; uint32_t hdrCount = 0; uint32_t containerSize = CFG_CONTAINER;
     {
         File f;
         f.compressionLevel = CFG_LEVEL;
@@ -65,14 +65,21 @@ extern "C" void h_session() {
         f.fileStatistics.applicationMajor = appMajor; f.fileStatistics.applicationMinor = appMinor;
         f.fileStatistics.apiNumber = apiNumber; f.fileStatistics.applicationBuild = appBuild;
         f.fileStatistics.measurementStartTime.year = year; f.fileStatistics.lastObjectTime.milliseconds = ms;
-        f.open(VP_FILE("a.blf"), std::ios_base::out);
-        VP_ASSERT(f.is_open());
+        ObjectHeaderBase * objs[NOBJ];
         catLen = 0;
         for (int i = 0; i < NOBJ; i++) {
-            ObjectHeaderBase * o = make(i);
+            objs[i] = make(i);
             memcpy(cat + catLen, enc[i], static_cast<size_t>(encLen[i])); catLen += encLen[i];
-            f.write(o);
         }
+#ifdef CONTAINER_DIVIDES_PAYLOAD
+        // the payload is an exact multiple of the container size
+        containerSize = static_cast<uint32_t>(catLen / CONTAINER_DIVIDES_PAYLOAD);
+        if (containerSize * CONTAINER_DIVIDES_PAYLOAD != static_cast<uint32_t>(catLen)) containerSize = static_cast<uint32_t>(catLen);
+        f.setDefaultLogContainerSize(containerSize);
+#endif
+        f.open(VP_FILE("a.blf"), std::ios_base::out);
+        VP_ASSERT(f.is_open());
+        for (int i = 0; i < NOBJ; i++) f.write(objs[i]);
         f.close();
         VP_ASSERT(!f.is_open());
         hdrUncompressed = f.fileStatistics.uncompressedFileSize; hdrFileSize = f.fileStatistics.fileSize;
@@ -104,7 +111,7 @@ extern "C" void h_session() {
         if (!(osz >= 32 && pos + osz <= n)) break;
         uint32_t stored = osz - 32;
         vp_assert(method == (CFG_LEVEL == 0 ? 0 : 2), "C04: compression method matches the configured level");
-        vp_assert(usz <= CFG_CONTAINER, "C04: no container larger than the configured container size");
+        vp_assert(usz <= containerSize, "C04: no container larger than the configured container size");
         if (method == 0) {
             vp_assert(stored == usz, "C04: stored size equals uncompressed size for method 0");
             if (payload + stored <= (long)sizeof inflated) memcpy(inflated + payload, c + 32, stored);
